@@ -88,8 +88,8 @@ func Classify(err error) Outcome {
 	if strings.Contains(first, "stack overflow") {
 		return Outcome{Kind: KStack}
 	}
-	if strings.HasPrefix(first, "wasm error: ") {
-		d := strings.TrimPrefix(first, "wasm error: ")
+	if i := strings.Index(first, "wasm error: "); i >= 0 { // may be prefixed, e.g. by "start function[..] failed: "
+		d := first[i+len("wasm error: "):]
 		for _, k := range trapKinds {
 			if d == k {
 				return Outcome{Kind: KTrap, Detail: k}
